@@ -175,6 +175,7 @@ pub struct Agg {
     pub violations: Vec<Value>,
     pub violation_count: u64,
     pub violation_sigs: BTreeMap<String, u64>,
+    pub violation_runs: BTreeSet<u64>,
     pub samples: Vec<Value>,
     pub hashes: BTreeMap<u64, u64>,
     pub deaths: Vec<(u64, String)>,
@@ -289,12 +290,18 @@ pub fn run_batch(prop: &str, seed: u64, from: u64, to: u64, workers: u64, hashes
                             let sig = v["violation"]["signature"].as_str().unwrap_or("").to_string();
                             *agg.violation_sigs.entry(sig).or_insert(0) += 1;
                             agg.violation_count += 1;
+                            if let Some(r) = v["run"].as_u64() {
+                                agg.violation_runs.insert(r);
+                            }
                             agg.violations.push(v);
                         }
                     }
                     "v" => {
-                        if let Some((_, sig)) = rest.split_once(' ') {
+                        if let Some((r, sig)) = rest.split_once(' ') {
                             *agg.violation_sigs.entry(sig.to_string()).or_insert(0) += 1;
+                            if let Ok(r) = r.parse::<u64>() {
+                                agg.violation_runs.insert(r);
+                            }
                         }
                         agg.violation_count += 1;
                     }
@@ -378,6 +385,7 @@ pub fn run_batch(prop: &str, seed: u64, from: u64, to: u64, workers: u64, hashes
         total.unclaimed += a.unclaimed;
         total.violations.extend(a.violations);
         total.violation_count += a.violation_count;
+        total.violation_runs.extend(a.violation_runs);
         for (k, v) in a.violation_sigs {
             *total.violation_sigs.entry(k).or_insert(0) += v;
         }
@@ -391,9 +399,17 @@ pub fn run_batch(prop: &str, seed: u64, from: u64, to: u64, workers: u64, hashes
 }
 
 /// Event-log hash of `run` when executed after runs from..run in one process, and alone.
+/// For C16 the question is instead whether `run` reports a violation after its predecessors
+/// (encoded as hashes 1 / 0 against 0 alone).
 pub fn process_history_pair(prop: &str, seed: u64, from: u64, run: u64) -> Option<(u64, u64)> {
     let seq = run_batch(prop, seed, from, run + 1, 1, true).ok()?;
     let alone = run_batch(prop, seed, run, run + 1, 1, true).ok()?;
+    if prop == "C16" {
+        return Some((
+            seq.violation_runs.contains(&run) as u64,
+            alone.violation_runs.contains(&run) as u64,
+        ));
+    }
     Some((*seq.hashes.get(&run)?, *alone.hashes.get(&run)?))
 }
 
@@ -518,7 +534,7 @@ pub fn replay_value(prop: &str, lane: &str, scenario: &Value, verbose: bool) -> 
             let run = scenario["run"].as_u64().unwrap_or(0);
             match process_history_pair(prop, seed, from, run) {
                 Some((a, b)) if a != b => Ok(Some(crate::exec::Violation {
-                    props: vec!["C17"],
+                    props: vec![if prop == "C16" { "C16" } else { "C17" }],
                     clause: "result-depends-on-process-history".into(),
                     op: "run-sequence".into(),
                     key: String::new(),
@@ -758,19 +774,20 @@ pub fn cmd_check(prop: &str, tier: &str, seed: u64) -> i32 {
                                 println!("VIOLATION property={} replay={}", prop, path2);
                                 replay_path = path2;
                                 exit = 1;
-                            } else if prop == "C17" {
+                            } else if prop == "C17" || prop == "C16" {
                                 // the outcome depended on what the worker's thread had processed
-                                // in *earlier runs*: replay the run sequence instead
+                                // (C17) / on failures of threads of *earlier runs* of the same
+                                // process (C16): replay the run sequence instead
                                 let r = pick["run"].as_u64().unwrap_or(0);
                                 match process_history_window(prop, seed, r) {
                                     Some((from, h_seq, h_alone)) => {
                                         let v = crate::exec::Violation {
-                                            props: vec!["C17"],
+                                            props: vec![if prop == "C16" { "C16" } else { "C17" }],
                                             clause: "result-depends-on-process-history".into(),
                                             op: "run-sequence".into(),
                                             key: String::new(),
                                             detail: format!(
-                                                "{} [run {} logs {:016x} after runs {}.. in the same process but {:016x} in a fresh process]",
+                                                "{} [run {} behaves as {:x} after runs {}.. in the same process but {:x} in a fresh process]",
                                                 pick["violation"]["detail"].as_str().unwrap_or(""), r, h_seq, from, h_alone
                                             ),
                                             step: 0,
